@@ -831,3 +831,46 @@ async fn d16w_transient_wal_append_failure() {
 	assert_eq!(tx.get(b"k2").unwrap(), None, "D16w: the failed commit is visible after recovery");
 	assert_eq!(tx.get(b"k3").unwrap().as_deref(), Some(&b"v3"[..]), "D16w: a commit acknowledged after the failed one is lost by recovery");
 }
+
+// D21: the WAL reader acts on a SetCompressionType record without checking its CRC:
+// one flipped bit in a data record's type byte (Full=1 -> SetCompressionType=9) makes a commit vanish silently
+#[tokio::test(flavor = "multi_thread")]
+async fn d21_wal_type_byte_flip_is_not_detected() {
+	let d = td();
+	let opts = mk_opts(d.path().to_path_buf(), |o| {
+		o.flush_on_close = false;
+		o.wal_recovery_mode = crate::WalRecoveryMode::AbsoluteConsistency;
+	});
+	{
+		let tree = Tree::new(Arc::clone(&opts)).unwrap();
+		put(&tree, b"k1", b"v1").await;
+		put(&tree, b"k2", b"v2").await;
+		tree.close().await.unwrap();
+	}
+	let wal = last_wal(&opts);
+	let mut bytes = std::fs::read(&wal).unwrap();
+	// walk the physical records (7-byte header: crc(4) len(2) type(1)) and flip the type of the last one
+	let mut off = 0usize;
+	let mut last = None;
+	while off + 7 <= bytes.len() {
+		let len = u16::from_be_bytes([bytes[off + 4], bytes[off + 5]]) as usize;
+		if bytes[off + 6] == 0 {
+			break;
+		}
+		last = Some(off);
+		off += 7 + len;
+	}
+	let last = last.unwrap();
+	assert_eq!(bytes[last + 6], 1, "expected a Full record");
+	bytes[last + 6] = 9;
+	std::fs::write(&wal, &bytes).unwrap();
+	let r = Tree::new(Arc::clone(&opts));
+	match r {
+		Err(_) => {} // detected: fine
+		Ok(tree) => {
+			let tx = tree.begin().unwrap();
+			assert_eq!(tx.get(b"k1").unwrap().as_deref(), Some(&b"v1"[..]));
+			assert_eq!(tx.get(b"k2").unwrap().as_deref(), Some(&b"v2"[..]), "D21: damaged commit log opened without error (absolute consistency) but a committed key is gone");
+		}
+	}
+}
